@@ -31,6 +31,9 @@ pub struct Case {
     pub chaos_seed: u64,
     pub post_delay_ms: u8,
     pub windows_after: u8,
+    /// after stabilisation, shreds towards this (live) node always take the full 200 ms per hop
+    /// while votes stay fast: its blocks complete after the others' certificates arrive
+    pub slow_node: Option<u8>,
     pub noisy: bool,
     pub seed: u64,
 }
@@ -76,11 +79,11 @@ impl Property for C02 {
             prop_oneof![1 => Just(0u16), 3 => 100u16..3000],
             any::<u64>(),
             10u8..=200,
-            3u8..=5,
+            (3u8..=5, prop::option::weighted(0.4, any::<u8>())),
             any::<bool>(),
             any::<u64>(),
         )
-            .prop_map(|(stakes, crash_order, byz_order, turbine_fanout, calm_start_ms, pre_gst_ms, chaos_max_ms, chaos_seed, post_delay_ms, windows_after, noisy, seed)| Case {
+            .prop_map(|(stakes, crash_order, byz_order, turbine_fanout, calm_start_ms, pre_gst_ms, chaos_max_ms, chaos_seed, post_delay_ms, (windows_after, slow_node), noisy, seed)| Case {
                 stakes,
                 crash_order,
                 byz_order,
@@ -91,6 +94,7 @@ impl Property for C02 {
                 chaos_seed,
                 post_delay_ms,
                 windows_after,
+                slow_node,
                 noisy,
                 seed,
             })
@@ -177,7 +181,17 @@ async fn run(case: &Case) -> Outcome {
     // --- stabilisation: from now on every hop takes at most post_delay
     let post = case.post_delay_ms as u64;
     let seed2 = case.chaos_seed ^ 0xABCD;
-    switch.set_policy(Box::new(move |from, to, _iface, c| Some(1 + mixh(seed2, c ^ ((from as u64) << 40) ^ ((to as u64) << 48)) % post)));
+    let slow = case.slow_node.map(|s| live[s as usize % live.len()]);
+    if slow.is_some() {
+        out.label("slow-shred-receiver");
+    }
+    switch.set_policy(Box::new(move |from, to, iface, c| {
+        if Some(to) == slow && iface == Iface::Disseminator {
+            return Some(200);
+        }
+        let cap = if slow.is_some() { post.min(30) } else { post };
+        Some(1 + mixh(seed2, c ^ ((from as u64) << 40) ^ ((to as u64) << 48)) % cap)
+    }));
     // everything still in flight is delivered within chaos_max
     let gst = t + chaos_max;
     let horizon = gst + (case.windows_after as u64 + 2) * 3500 + 3000;
@@ -202,6 +216,15 @@ async fn run(case: &Case) -> Outcome {
         }
     }
 
+    if switch.repair_storm() {
+        // a repair request storm (recorded under C10) makes the timing verdicts meaningless
+        out.label("ended=repair-message-storm");
+        for nd in &nodes {
+            nd.cancel.cancel();
+            nd.task.abort();
+        }
+        return out;
+    }
     // --- judgement
     let log = switch.take_consensus_log();
     let shreds = switch.take_shred_log();
@@ -259,7 +282,7 @@ async fn run(case: &Case) -> Outcome {
                 Err(_) => {}
             }
         }
-        for (s, m) in per_slot.iter().take(12) {
+        for (s, m) in per_slot.iter().filter(|(s, _)| std::env::var("VERIF_DEBUG_SLOT").ok().and_then(|v| v.parse::<u64>().ok()).is_none_or(|x| **s + 2 >= x && **s <= x + 1)).take(12) {
             eprintln!("slot {s}: {m:?}");
         }
         eprintln!("gst {gst} shreds logged {}", shreds.len());
@@ -368,7 +391,10 @@ async fn run(case: &Case) -> Outcome {
                     out.violate("C02/correct-leaders-block-not-finalised", format!("window {w}: no finalisation certificate for slot {s} although nodes finalised up to {min_fin}"));
                     break;
                 }
-                if live_stake * 5 >= total * 4 {
+                // one-round finalisation shows as a fast-final certificate only when no correct node
+                // is markedly slower than the rest: otherwise the two-round path of the fastest
+                // 60 % legitimately completes first and the slow node never needs to vote
+                if live_stake * 5 >= total * 4 && slow.is_none() {
                     let from = fast_from.get(&s).cloned().unwrap_or_default();
                     if !live.iter().all(|v| from.contains(v)) {
                         out.violate(
